@@ -73,6 +73,13 @@ def enumerate_cases(tier: str):
             for echo in ("11;1;1;1;3;0\n", "11;1;1;1;3;1\n", "11;1;1;0;3;0\n", "11;2;1;1;3;0\n", "11;1;2;1;3;\n"):
                 ops = [["send", [11, 1, 1, 1, 3, "0"], None], wake, ["send", [11, 1, 1, ack_b, 3, "1"], None], ["rx", echo], wake, wake]
                 yield {"kind": "hist", "version": version, "ops": ops}
+    # the same command again after it was delivered once (the node was switched back by hand in between): held and delivered again
+    for version in ("2.0", "2.1", "2.2"):
+        wake = ["rx", f"11;255;3;0;{32 if version == '2.2' else 22};7\n"]
+        for ack in (0, 1):
+            for between in ([], [["rx", "11;1;1;0;3;0\n"]], [["send", [11, 1, 1, ack, 3, "0"], None], wake]):
+                ops = [["send", [11, 1, 1, ack, 3, "1"], None], wake] + between + [["send", [11, 1, 1, ack, 3, "1"], None], wake, ["send", [11, 1, 1, ack, 3, "1"], None], ["send", [11, 2, 1, ack, 3, "1"], None], wake, wake]
+                yield {"kind": "hist", "version": version, "ops": ops}
     # destinations registered with every kind of version text
     for version in ("1.5", "2.0", "2.2"):
         for text in ("", "unknown", "2.0.0-beta", "1.4", "2.2.0", "x.y", " ", "2", "v2.1"):
